@@ -108,3 +108,6 @@ func GuardAlt(x interface{}, mu interface{}, alt interface{}, what string) {}
 // Settle (engine-only, with flag "go-threads"): lets the goroutines started by the code under test run
 // until each of them is blocked on a channel operation or has finished.
 func Settle() {}
+
+// GuardField: the object the field obj.<field> refers to is guarded by the mutex in muOwner.<muField> (unexported fields allowed).
+func GuardField(obj interface{}, field string, muOwner interface{}, muField string, what string) {}
